@@ -12,6 +12,9 @@ for m in MODULES:
         mod = importlib.import_module(m)
     except ImportError:
         continue
+    funcs = privnames.module_funcs(mod)
+    if funcs:
+        out[f"module:{m}"] = funcs
     for _, k in inspect.getmembers(mod, inspect.isclass):
         if k.__module__ == m:
             names = privnames.own_names(k)
